@@ -293,10 +293,10 @@ def run_history(ctx, hist, drv, hid):
                          nontrivial=had_cache, key=[ctx.seed, hist["stream"], hid, i])
                 ctx.count("decision:" + kind)
                 ctx.count("mode:" + mode)
-                if ref_key is None:
+                if ref_key != mode:      # nothing changed since the last reference *and* same mode (caching forces expand_mx)
                     rok, rm, rmsg = w.reference(o, libs)
                     ref_sig = G.signature(rm, 2, 5) if rok else {"raised": rm}
-                    ref_key = True
+                    ref_key = mode
                     del rm
                 if not ok:
                     if "raised" in ref_sig and ref_sig["raised"] == m:
